@@ -444,6 +444,8 @@ func (cc *Session) clearKsConns(nsChangeIndex uint32) {
 			ksConn.Recycle()
 		}
 		cc.executor.ksConns = make(map[string]backend.PooledConnect)
+		// the change has been acted upon: do not act on it again later in the same command
+		cc.executor.nsChangeIndexOld = cc.getNamespace().namespaceChangeIndex
 	}
 }
 
